@@ -1,4 +1,4 @@
-CONSTANTS MaxLen = 7
+CONSTANTS MaxLen = 6
  Alphabet = {0}
 INIT GenInitC
 NEXT GenNone
